@@ -130,6 +130,18 @@ class Ctx:
         return sorted(out)
 
 
+def keep(role, factory):
+    """analysis objects built in the warm-up run are reused for the real run (same CFGonality /
+    CFLaplacian object asked again after its graph changed)"""
+    if WARM.get("phase") == 1:
+        obj = factory()
+        WARM["obj:" + role] = obj
+        return obj
+    if WARM.get("phase") == 2 and ("obj:" + role) in WARM:
+        return WARM["obj:" + role]
+    return factory()
+
+
 def tag(x):
     """type tag of a number: plain int / bool / numpy scalar / other"""
     if type(x) is int:
@@ -387,7 +399,7 @@ def op_lap(scn):
     ok, S = call(CFiringScript, G, {c.name(i): k for i, k in scn.get("init", [])})
     if not ok:
         return {"ctor": "ERR"}
-    L = CFLaplacian(G)
+    L = CFLaplacian(G)      # a Laplacian object is a snapshot of its graph by design: never reused across mutations
     out = {}
     out["matrix"] = [[L.get_matrix_entry(a, b) for b in c.names] for a in c.names]
     q = scn["q"]
@@ -680,7 +692,11 @@ def op_gonality(scn):
     kw = {}
     if scn.get("max") is not None:
         kw["max_gonality"] = scn["max"]
-    ok, res = call(gonality, G, find_strategies=bool(scn.get("strat", True)), **kw)
+    from chipfiring.CFGonality import CFGonality as _CG
+    if scn.get("warmup") is not None:
+        ok, res = call(lambda: keep("gon", lambda: _CG(G)).compute_gonality(kw.get("max_gonality"), bool(scn.get("strat", True))))
+    else:
+        ok, res = call(gonality, G, find_strategies=bool(scn.get("strat", True)), **kw)
     if not ok:
         return "ERR"
     return {"gonality": res.gonality, "strategies": [c.degs(s) for s in res.winning_strategies], "graph": c.gdigest(G)}
@@ -698,7 +714,7 @@ def op_play(scn):
     out = {"game": res.player_a_wins if ok else "ERR"}
     if ok and (res.player_a_wins != res.winnability):
         out["game"] = "INCONSISTENT"
-    ok, res = call(CFGonality(G).test_n_chip_strategy, scn["nchips"], P)
+    ok, res = call(keep("gon", lambda: CFGonality(G)).test_n_chip_strategy, scn["nchips"], P)
     out["test"] = [res[0], sorted(c.index(nm) for nm in res[1])] if ok else "ERR"
     out["P_after"] = c.degs(P)
     out["graph"] = c.gdigest(G)
